@@ -443,12 +443,8 @@ _HOTNESS: List[Any] = [None]
 
 
 def get_hotness() -> Any:
-    if _HOTNESS[0] is None:
-        from . import hotness
-
-        kit.load_celpy()
-        _HOTNESS[0] = hotness.Hotness()
-    return _HOTNESS[0]
+    kit.load_celpy()  # computes kit.HOTNESS from the pristine module state, once per process
+    return kit.HOTNESS
 
 
 class Worker:
